@@ -1,0 +1,51 @@
+//go:build verif
+
+package core
+
+import "github.com/jsightapi/jsight-api-go-library/directive"
+
+// VerifSink receives stage and file-access events when the library is built
+// with the "verif" tag and a sink is installed. Never set in production builds.
+var VerifSink func(core *JApiCore, ev string, arg string)
+
+func verifStage(core *JApiCore, stage string) {
+	if VerifSink != nil {
+		VerifSink(core, "stage", stage)
+	}
+}
+
+func verifFile(core *JApiCore, op string, path string) {
+	if VerifSink != nil {
+		VerifSink(core, op, path)
+	}
+}
+
+// VerifDirectives returns the directive forest built by the scan stage.
+func (core *JApiCore) VerifDirectives() []*directive.Directive { return core.directives }
+
+// VerifDirectivesWithPastes returns the forest after MACRO/PASTE expansion.
+func (core *JApiCore) VerifDirectivesWithPastes() []*directive.Directive {
+	return core.directivesWithPastes
+}
+
+// VerifContextChain returns the currently open contexts, innermost first.
+func (core *JApiCore) VerifContextChain() []*directive.Directive {
+	var res []*directive.Directive
+	for d := core.currentContextDirective; d != nil; d = d.Parent {
+		res = append(res, d)
+	}
+	return res
+}
+
+// VerifMacroNames returns the names of the collected macros (unordered).
+func (core *JApiCore) VerifMacroNames() []string {
+	res := make([]string, 0, len(core.macro))
+	for k := range core.macro {
+		res = append(res, k)
+	}
+	return res
+}
+
+func VerifDescription(b []byte) ([]byte, error) { return description(b) }
+
+func VerifValidateIncludeFileName(s string) error { return validateIncludeFileName(s) }
